@@ -101,7 +101,7 @@ theorem step_check {s s' : State} {t : Nat} (h : step s (.check t) = some s') :
        (checkPos s.chunks sz pos = .panic ∧
           s' = { s with threads := s.threads.set t { th with pc := .panicked .bounds } }) ∨
        (∃ r, checkPos s.chunks sz pos = .slice r ∧
-          s' = { s with threads := s.threads.set t { th with pc := .idle },
+          s' = { s with threads := s.threads.set t {},
                         grants := ⟨t, th.op, r⟩ :: s.grants })) := by
   simp only [step] at h
   split at h
